@@ -6,11 +6,13 @@ package server
 // every reached store state; states deduplicated on the directory content.
 
 import (
+	"bytes"
 	gocontext "context"
 	"crypto/sha256"
 	"encoding/json"
 	"fmt"
 	"net/http"
+	"net/http/httptest"
 	gos "os"
 	"path/filepath"
 	"sort"
@@ -37,6 +39,10 @@ type z4Op struct {
 	Template string `json:"template,omitempty"`
 	// Dash: the model file is named by the other accepted spelling of its digest, "sha256-<hex>"
 	Dash bool `json:"dash,omitempty"`
+	// upload: the bytes of model file GGUF are sent to /api/blobs/<digest>; As (if not 0) announces them under the digest
+	// of another file, Upper spells the right digest in upper-case hex
+	As    int  `json:"as,omitempty"`
+	Upper bool `json:"upper,omitempty"`
 	// Streamed: the request asks for the streamed (NDJSON) answer; success = the last line says so and no line carries an error
 	Streamed bool `json:"streamed,omitempty"`
 }
@@ -70,6 +76,8 @@ func (o z4Op) String() string {
 		return fmt.Sprintf("delete(%s)", o.Name)
 	case "pullh":
 		return fmt.Sprintf("pull(%s)", o.Name)
+	case "upload":
+		return fmt.Sprintf("upload(G%d as G%d upper=%v)", o.GGUF, o.As, o.Upper)
 	default:
 		return o.Kind
 	}
@@ -107,6 +115,9 @@ func z4Alphabet(thorough bool) []z4Op {
 		z4Op{Kind: "create", Name: "Library/a", GGUF: 1},
 		z4Op{Kind: "pullh", Name: "a"},
 		// streamed creates from a model that is neither in the store nor on the registry, onto a new and onto an existing name
+		// uploads of the bytes of a file that may be in use, announced under a wrong or differently spelled digest
+		z4Op{Kind: "upload", GGUF: 1, As: 2},
+		z4Op{Kind: "upload", GGUF: 1, Upper: true},
 		z4Op{Kind: "from", Name: "b", Src: "nosuch", Streamed: true},
 		z4Op{Kind: "from", Name: "a", Src: "nosuch", System: "S2", Streamed: true})
 	return l
@@ -118,7 +129,8 @@ const z4Template = "{{ .Prompt }} T"
 // and adds the matching template and parameter layers by itself.
 const z4ChatML = "{% if messages[0]['role'] == 'system' %}{% set system_message = messages[0]['content'] %}{% endif %}{% if system_message is defined %}{{ system_message }}{% endif %}{% for message in messages %}{% set content = message['content'] %}{% if message['role'] == 'user' %}{{ '<|im_start|>user\\n' + content + '<|im_end|>\\n<|im_start|>assistant\\n' }}{% elif message['role'] == 'assistant' %}{{ content + '<|im_end|>' + '\\n' }}{% endif %}{% endfor %}"
 
-func z4GGUF(w *z12World, k int) string {
+// z4Bytes: the bytes of the harness's model file number k
+func z4Bytes(k int) []byte {
 	data := append([]byte{}, ztGGUFBlob()...)
 	if k == 2 {
 		// a second, different model file: same structure, one tensor byte changed
@@ -127,6 +139,11 @@ func z4GGUF(w *z12World, k int) string {
 	if k == 3 {
 		data = ztGGUFWith(ggml.KV{"tokenizer.chat_template": z4ChatML})
 	}
+	return data
+}
+
+func z4GGUF(w *z12World, k int) string {
+	data := z4Bytes(k)
 	d := fmt.Sprintf("sha256:%x", sha256.Sum256(data))
 	if _, err := gos.Stat(w.blobFile(d)); err != nil {
 		gos.MkdirAll(filepath.Join(w.models, "blobs"), 0o755)
@@ -183,6 +200,19 @@ func (w *z12World) z4Apply(o z4Op) (bool, string) {
 	case "delete":
 		code, body := ztCall(w.h, "DELETE", "/api/delete", api.DeleteRequest{Model: o.Name})
 		return code == 200, body
+	case "upload":
+		data := z4Bytes(o.GGUF)
+		d := fmt.Sprintf("sha256:%x", sha256.Sum256(data))
+		if o.As != 0 {
+			d = fmt.Sprintf("sha256:%x", sha256.Sum256(z4Bytes(o.As)))
+		}
+		if o.Upper {
+			d = "sha256:" + strings.ToUpper(strings.TrimPrefix(d, "sha256:"))
+		}
+		req := httptest.NewRequest("POST", "/api/blobs/"+d, bytes.NewReader(data))
+		rec := &ztRecorder{ResponseRecorder: httptest.NewRecorder()}
+		w.h.ServeHTTP(rec, req)
+		return rec.Code/100 == 2, rec.Body.String()
 	case "pullh":
 		// pull through the API handler, from the default registry (host and namespace are implied by the short name)
 		code, body := ztCall(w.h, "POST", "/api/pull", api.PullRequest{Model: o.Name, Stream: &stream})
